@@ -98,8 +98,8 @@ def instances(tier):
         out.append(inst('%s ins[%s] %s' % (spec_name(sp), _steps_name(steps), via), h_insert, timeout=timeout, sp=sp, steps=steps, via=via))
 
     # curves
-    for p in ((1, 2, 3) if quick else (1, 2, 3, 4)):
-        for m in ([(), (1,), (p,)] + ([(2,), (1, 2)] if p >= 2 else []) + ([] if quick else [(1, 1, 1)])):
+    for p in ((1, 2, 3) if quick else (1, 2, 3, 4, 5)):
+        for m in ([(), (1,), (p,)] + ([(2,), (1, 2)] if p >= 2 else []) + ([] if quick else [(1, 1, 1), (p - 1, 1) if p >= 2 else (1, 1)])):
             for rational in (False, True):
                 sp = spec('curve', (p,), (m,), rational=rational, dim=2 if rational else 3)
                 for num in range(1, p + 2):
@@ -119,7 +119,7 @@ def instances(tier):
     # surfaces
     surf = [((1, 2), ((1,), ())), ((2, 1), ((), (1,))), ((2, 2), ((1,), (2,)))]
     if not quick:
-        surf += [((3, 2), ((1,), (1,))), ((2, 3), ((), (1, 1)))]
+        surf += [((3, 2), ((1,), (1,))), ((2, 3), ((), (1, 1))), ((3, 3), ((1,), (2,))), ((1, 3), ((1, 1), (3,)))]
     for degs, ms in surf:
         for rational in (False, True):
             sp = spec('surface', degs, ms, rational=rational)
@@ -136,7 +136,7 @@ def instances(tier):
     if not quick:
         add(spec('surface', (2, 2), ((1,), (1,)), rational=False), [{0: 2}, {1: 1}, {0: 1}], timeout=1800)
     # volumes (sizes pairwise different)
-    vols = [((1, 1, 2), ((1,), (), ())), ((2, 1, 1), ((), (1,), (1, 1)))]
+    vols = [((1, 1, 2), ((1,), (), ())), ((2, 1, 1), ((), (1,), (1, 1)))] + ([] if quick else [((2, 2, 1), ((1,), (2,), ())), ((1, 3, 1), ((), (1,), (1,)))])
     for degs, ms in vols:
         for rational in ((False, True) if not quick else (False,)):
             sp = spec('volume', degs, ms, rational=rational)
